@@ -726,7 +726,8 @@ int file::Handle::readln(char * buf, int n)
   int c = 0, r = 0;
   while (r < n &&  c != '\n')
   {
-    if ((c = ::fgetc(_file)) <= 0)
+    /* the content is 8-bit clean: only EOF ends the read, not a zero byte */
+    if ((c = ::fgetc(_file)) == EOF)
       break;
     *buf = (char)c;
     ++buf;
